@@ -584,14 +584,13 @@ theorem C04_numrange (ext : Ext) (pf : Model.ParseFloat) (hpf : Spec.ParseFloatO
   rw [hlast]
   simp only [ok_bind, hfb, mask1]
   cases h0 : flags.testBit 0
-  · simp only [Bool.false_eq_true, if_false, show OidNumRange = 3906 from rfl, if_true]
+  · simp only [Bool.false_eq_true, if_false, if_true]
     have key := decodeNumericRange_rt ext pf hpf hext flags lo hi h0
       (fun hl => by rcases h'.2.1 with h1 | h1; · rw [hl] at h1; cases h1
                     · exact h1)
       (fun hu => by rcases h'.2.2 with h1 | h1; · rw [hu] at h1; cases h1
                     · exact h1)
     rw [key]
-    rfl
   · simp only [if_true, pure_eq_ok]
     show Except.ok (lit "empty") = Except.ok (fstrS (numRangePieces flags lo hi))
     simp only [numRangePieces, h0, if_true]
@@ -605,7 +604,7 @@ example : ∃ ext : Ext, ext.decodeNumeric = numExt Spec.parseFloatRef :=
 
 example : (Val.range .num 2 (.num (.fin false 0 0 [1]) .short) (.num (.fin false 0 0 [9999]) .short)).WF ∧
     (Val.range .num 2 (.num (.fin false 0 0 [1]) .short) (.num (.fin true 62 0 (List.replicate 63 9999)) .short)).WF ∧
-    (Val.range .num 6 (.num .ninf .long) (.num .nan .short)).WF := by decide
+    (Val.range .num 6 (.num .ninf .long) (.num .nan .short)).WF := by decide +kernel
 
 /-- the defect repaired by fixes/scalars/15 on the commit's witness: the stored `[1,9999)` (bytes 42 0f 00 00, 0b 00 80 01 00,
 0b 00 80 0f 27, 02) decodes to `[1,9999)` with both bounds as floats; the former code printed `[?,?)` -/
@@ -614,7 +613,7 @@ theorem C04_numrange_witness :
                  jsonUnmarshal := fun _ => none }
       [0x42, 0x0f, 0, 0, 0x0b, 0, 0x80, 1, 0, 0x0b, 0, 0x80, 0x0f, 0x27, 2] 3906
     = .ok (.arr [.str [91], .f64 0x3FF0000000000000, .str [44], .f64 0x40C3878000000000, .str [41]]) := by
-  decide +kernel
+  rfl
 
 /-- path (A17 repaired, fixes/scalars/14): every stored path — int32 npts, int32 closed, int32 dummy, then the points — with
 1 ≤ npts < 2²⁷ points of any float64 bit patterns decodes to its points in order, in `(…)` when closed and `[…]` when open
@@ -667,7 +666,7 @@ theorem C04_path_witness (ext : Ext) :
     decodeType ext (enc (.path false [(0x3FF0000000000000, 0x4000000000000000)])) 602 =
       .ok (.arr [.str [91, 40], .f64 0x3FF0000000000000, .str [44], .f64 0x4000000000000000, .str [41, 93]]) ∧
     storedLayout ([1] ++ le 4 3 ++ zeros 48) 602 = .ok none := by
-  exact ⟨by decide, rfl, by decide⟩
+  exact ⟨by decide, rfl, wire_not_stored _ 602 3 (by simp [le_length, zeros_length])⟩
 
 /-- non-vacuity of the per-type hypotheses: boundary values of many types are well-formed, and the partial
 theorems for tid / pg_lsn have values inside their hypotheses -/
